@@ -99,9 +99,13 @@ def solvers_for(formula):
 
 def digest(a):
     if sp.issparse(a):
-        a = a.tocsr() if not isinstance(a, (sp.csr_matrix, sp.csc_matrix)) else a
         h = hashlib.sha1()
-        for part in (a.data, a.indices, a.indptr):
+        if isinstance(a, sp.coo_matrix):
+            parts = (a.data, a.row, a.col)         # the buffers the user owns
+        else:
+            a = a.tocsr() if not isinstance(a, (sp.csr_matrix, sp.csc_matrix)) else a
+            parts = (a.data, a.indices, a.indptr)
+        for part in parts:
             h.update(np.ascontiguousarray(part).tobytes())
         h.update(str(a.shape).encode())
         return h.hexdigest()
@@ -291,7 +295,21 @@ def user_array(a, mode=None):
         if np.all(a == np.round(a)) and np.all(np.abs(a) < 1e9):
             a = a.astype(np.int64)
     elif mode == 'sparse' and a.ndim == 2:
-        m = sp.csr_matrix(a)
+        # a matrix as a user may well have it: some zeros stored explicitly, csr / csc / coo
+        # by the content (deterministic), index and value buffers owned by the user
+        r_, c_ = np.nonzero(a)
+        zr, zc = np.nonzero(a == 0)
+        keep = [(i + j) % 3 == 0 for i, j in zip(zr, zc)]
+        zr, zc = zr[keep], zc[keep]
+        rows = np.concatenate([r_, zr])
+        cols = np.concatenate([c_, zc])
+        data = np.concatenate([a[r_, c_], np.zeros(len(zr))])
+        m = sp.coo_matrix((data, (rows, cols)), shape=a.shape)
+        kind = int(abs(a).sum() * 100) % 4
+        if kind in (0, 1):
+            m = m.tocsr()          # conversion keeps explicitly stored zeros
+        elif kind == 2:
+            m = m.tocsc()
         return m
     if isinstance(a, np.ndarray):
         a.flags.writeable = False
